@@ -1,12 +1,27 @@
 """
-c20_child.py — runs ONE C20 case on the real implementation in this (fresh) interpreter and prints one JSON line.
+c20_child.py — runs ONE C20 case on the real implementation in a fresh interpreter state and prints one JSON line.
 
-stdin : {"repo": path, "hide": bool, "stubs": [module names to stub], "events": [Event JSON as the Lean codec reads it],
-         "tracked": [sys.modules keys to report]}
-        or {"probe": "<module>", "tracked": [...]}   (what does a real `import <module>` do here?)
-stdout: {"trace": [{"outcome", "mods", "config", "fn"}]}  /  {"probe": {"raises": exc|null, "closure": [...]}}
+one-shot : stdin = one job (JSON), stdout = one result line
+server   : `c20_child.py --serve` — a *zygote*: it imports the third-party libraries that sqlframe / pyspark need (never
+           sqlframe or pyspark themselves: asserted), then reads one job per line and runs each in a forked child, so that
+           every case starts from an interpreter in which neither sqlframe nor pyspark has ever been imported, without
+           paying for numpy / pandas / pyarrow / sqlglot / duckdb again.  Answers `{"id": …, "res": …}` per line.
+           (c20.py re-runs a sample of the cases one-shot and compares.)
 
-Nothing is imported from sqlframe before the events run except what `from sqlframe import activate, …` pulls in.
+job  : {"repo": path, "hide": bool, "stubs": [module names to stub], "events": [Event JSON as the Lean codec reads it],
+        "tracked": [sys.modules keys to report], "conn_kinds": {"3": "closed", …}}
+       or {"probe": "<module>", "tracked": [...]}   (what does a real `import <module>` do here?)
+       or {"import_pkg": engine}                     (can the engine package be imported here?)
+       or {"warm": true, …a case…}                   (additionally reports the third-party modules that were loaded)
+result: {"trace": [{"outcome", "mods", "config", "caller", "fn"}]}  /  {"probe": {"raises": exc|null, "closure": [...]}}
+
+Arguments of activate / activate_context: `conn=n` is a connection object per label n (the same object whenever the label
+recurs; labels listed in conn_kinds are connections on which every use fails); `dialect=d` is
+`config={'sqlframe.input.dialect': d}` where ONE dict object per value d is created on first use and handed to every
+later activation with the same settings — the application's shared settings dict.  After each event the content of
+every such dict is reported ("caller"): activate must only read it.
+
+Nothing is imported from sqlframe before the events run except what `import sqlframe` pulls in.
 """
 import importlib
 import json
@@ -18,8 +33,7 @@ import warnings
 warnings.filterwarnings("ignore")
 
 
-def main() -> None:
-    job = json.loads(sys.stdin.read())
+def run_job(job: dict) -> dict:
     tracked = set(job.get("tracked", []))
     if "probe" in job:
         name = job["probe"]
@@ -42,8 +56,7 @@ def main() -> None:
                     pass
                 except BaseException as e:  # noqa
                     poison.append([k, exc_name(e)])
-        print(json.dumps({"probe": {"raises": raises, "closure": clo, "poison": poison}}))
-        return
+        return {"probe": {"raises": raises, "closure": clo, "poison": poison}}
 
     repo = job["repo"]
     sys.path.insert(0, repo)
@@ -80,10 +93,9 @@ def main() -> None:
         # can `import sqlframe.<engine>` run here at all (driver installed / stubbed)?
         try:
             importlib.import_module("sqlframe." + job["import_pkg"])
-            print(json.dumps({"import_pkg": None}))
+            return {"import_pkg": None}
         except BaseException as e:  # noqa
-            print(json.dumps({"import_pkg": exc_name(e)}))
-        return
+            return {"import_pkg": exc_name(e)}
 
     import sqlframe  # noqa
 
@@ -92,6 +104,7 @@ def main() -> None:
     from unittest.mock import MagicMock
 
     conns = {}
+    conn_kinds = {int(k): v for k, v in (job.get("conn_kinds") or {}).items()}
 
     def conn(n):
         if n is None:
@@ -99,8 +112,40 @@ def main() -> None:
         if n not in conns:
             import duckdb
 
-            conns[n] = duckdb.connect()
+            kind = conn_kinds.get(n, "good")
+            if kind == "dead":
+
+                class Dead:
+                    """a connection object every use of which fails"""
+
+                    def __getattr__(self, name):
+                        raise duckdb.ConnectionException(f"dead connection (C20 harness): {name}")
+
+                c = Dead()
+            else:
+                c = duckdb.connect()
+                if kind == "closed":
+                    c.close()
+                elif kind == "udfclash":
+                    # the user has registered a Python function under a name sqlframe's DuckDB session wants to register
+                    from duckdb.typing import VARCHAR
+
+                    c.create_function("SOUNDEX", lambda s: s, return_type=VARCHAR)
+                elif kind != "good":
+                    raise ValueError(f"unknown connection kind {kind!r}")
+            conns[n] = c
         return conns[n]
+
+    def cfg_val(v):
+        lab = [n for n, c in conns.items() if c is v]
+        return {"conn": {"n": lab[0]}} if lab else {"str": {"s": v}} if isinstance(v, str) else {"other": repr(v)[:40]}
+
+    caller_cfgs = {}  # dialect value -> the caller's dict object (created on first use, then reused)
+
+    def caller_cfg(d):
+        if d not in caller_cfgs:
+            caller_cfgs[d] = {"sqlframe.input.dialect": d}
+        return caller_cfgs[d]
 
     def desc(o):
         if isinstance(o, MagicMock):
@@ -141,10 +186,7 @@ def main() -> None:
 
     def snapshot():
         mods = [[k, desc(v)] for k, v in list(sys.modules.items()) if k.startswith("pyspark") and k in tracked]
-        cfg = []
-        for k, v in sqlframe.ACTIVATE_CONFIG.items():
-            lab = [n for n, c in conns.items() if c is v]
-            cfg.append([k, {"conn": {"n": lab[0]}} if lab else {"str": {"s": v}} if isinstance(v, str) else {"other": repr(v)[:40]}])
+        cfg = [[k, cfg_val(v)] for k, v in sqlframe.ACTIVATE_CONFIG.items()]
         fn = []
         for k in list(sys.modules):
             parts = k.split(".")
@@ -152,10 +194,11 @@ def main() -> None:
                 m = sys.modules[k]
                 a = m.__dict__.get("functions")
                 fn.append([parts[1], [desc(a) if a is not None else None, (k + ".functions") in sys.modules]])
-        return {"mods": mods, "config": cfg, "fn": fn}
+        caller = [[d, [[k, cfg_val(v)] for k, v in c.items()]] for d, c in caller_cfgs.items()]
+        return {"mods": mods, "config": cfg, "caller": caller, "fn": fn}
 
     def act_args(d):
-        cfg = {"sqlframe.input.dialect": d["dialect"]} if d.get("dialect") is not None else None
+        cfg = caller_cfg(d["dialect"]) if d.get("dialect") is not None else None
         return d.get("eng"), conn(d.get("conn")), cfg
 
     def do_import(f):
@@ -221,7 +264,10 @@ def main() -> None:
         snap = snapshot()
         snap["outcome"] = out
         trace.append(snap)
-    print(json.dumps({"trace": trace}))
+    res = {"trace": trace}
+    if job.get("warm"):
+        res["third_party"] = [k for k in list(sys.modules) if not k.startswith(("pyspark", "sqlframe", "__main__")) and not any(k == s or k.startswith(s + ".") or s.startswith(k + ".") for s in job.get("stubs", []))]
+    return res
 
 
 class BlockLeft(BaseException):
@@ -241,6 +287,106 @@ def exc_name(e: BaseException) -> str:
         if type(e) is cls:
             return nm
     return "other:" + type(e).__name__
+
+
+# ------------------------------------------------------------------------------------------------
+# the zygote
+# ------------------------------------------------------------------------------------------------
+
+
+def _in_child(job: dict, wfd: int) -> None:
+    try:
+        os.dup2(2, 1)  # nothing a library prints may reach the protocol stream
+        try:
+            res = run_job(job)
+        except BaseException as e:  # noqa
+            import traceback
+
+            res = {"error": f"{type(e).__name__}: {e}\n{traceback.format_exc()[-500:]}"}
+        data = json.dumps(res).encode()
+        while data:
+            n = os.write(wfd, data)
+            data = data[n:]
+    finally:
+        os._exit(0)
+
+
+def _fork_job(job: dict, timeout: float) -> dict:
+    import select
+    import signal
+    import time
+
+    r, w = os.pipe()
+    pid = os.fork()
+    if pid == 0:
+        os.close(r)
+        _in_child(job, w)
+    os.close(w)
+    chunks = []
+    t_end = time.time() + timeout
+    timed_out = False
+    while True:
+        left = t_end - time.time()
+        if left <= 0:
+            timed_out = True
+            break
+        ready, _, _ = select.select([r], [], [], left)
+        if not ready:
+            timed_out = True
+            break
+        b = os.read(r, 1 << 16)
+        if not b:
+            break
+        chunks.append(b)
+    os.close(r)
+    if timed_out:
+        try:
+            os.kill(pid, signal.SIGKILL)
+        except OSError:
+            pass
+    os.waitpid(pid, 0)
+    if timed_out:
+        return {"error": f"timeout after {timeout}s"}
+    try:
+        return json.loads(b"".join(chunks).decode())
+    except Exception as e:  # noqa
+        return {"error": f"child died without a result: {e}"}
+
+
+def serve() -> None:
+    out = sys.stdout
+    loaded_before = set(sys.modules)
+    for line in sys.stdin:
+        line = line.strip()
+        if not line:
+            continue
+        job = json.loads(line)
+        if "preload" in job:
+            # import third-party modules (names reported by a warm-up case); never sqlframe / pyspark
+            ok = 0
+            for name in job["preload"]:
+                if name.startswith(("pyspark", "sqlframe")):
+                    continue
+                try:
+                    importlib.import_module(name)
+                    ok += 1
+                except BaseException:  # noqa
+                    pass
+            bad = [k for k in sys.modules if k == "pyspark" or k.startswith(("pyspark.", "sqlframe"))]
+            import threading
+
+            res = {"preloaded": ok, "polluted": bad, "threads": threading.active_count(), "new_modules": len(set(sys.modules) - loaded_before)}
+        else:
+            res = _fork_job(job, float(job.get("timeout", 120)))
+        out.write(json.dumps({"id": job.get("id"), "res": res}) + "\n")
+        out.flush()
+
+
+def main() -> None:
+    if len(sys.argv) > 1 and sys.argv[1] == "--serve":
+        serve()
+        return
+    print(json.dumps(run_job(json.loads(sys.stdin.read()))))
 
 
 if __name__ == "__main__":
